@@ -22,8 +22,8 @@ SECT_I = ["Ntoks", "Ntext", "Nmap", "Ltoks", "Ltext", "Lmap", "warn", "Ncols", "
 M_NTOK, M_NTEXT, M_NMAP, M_LTOK, M_LTEXT, M_LMAP, M_WARN, M_FUEL, M_WF, M_KNOWN, M_CMN, M_CML, M_CIN, M_CIL, \
     M_EWARN, M_PATHS, M_EXPN, M_EXPL, M_NUMS = range(19)
 
-# D13 D14 D17 D22 D23 were repaired in /repo (fix: commits): they are no classes any more
-KNOWN_IDS = {15: "D15", 24: "D24", 25: "D25", 26: "D26", 27: "D27", 28: "D28"}
+# D13 D14 D17 D22 D23 D25 D26 were repaired in /repo (fix: commits): they are no classes any more
+KNOWN_IDS = {15: "D15", 24: "D24", 27: "D27", 28: "D28"}
 
 RUNS = os.path.join(CACHE, "css_runs")
 
